@@ -763,6 +763,8 @@ def run(chk):
                            "the base props (4)" % (recv, arg)), [], c.loc
         out.append(c.loc)
         return True, "", out
+    from . import c17
+    c17.span_filter_sees_level(chk, P, "C01.S2.macro:span-filter-sees-level")
     chk.ob("C01.S2.macro:call-site-props-first", "props written at the call site precede (win over) the carried-in event's / base props", call_site_props_first)
 
     # unclassified impls: generic discipline only (no alarm for shape)
